@@ -88,6 +88,11 @@ Sync(c, s) ==
                     \o (IF s.aftercall THEN " right after a call of the print runtime" ELSE "") \o " (at " \o n.k \o ")")
        ELSE IF hv.why # "" THEN Fail(s, IF hv.leak THEN "leak" ELSE "heap", hv.why \o " (at " \o n.k \o ")")
        ELSE IF hv.F > peak + FootprintK THEN Fail(s, "footprint", "allocation frontier exceeds peak reachable blocks + K (at " \o n.k \o ")")
+       \* C10, first sentence: "fresh memory only when both free lists are empty".  No statement both takes fresh memory and
+       \* releases blocks, and once the frontier moves both lists stay empty for the rest of the statement (apart from the one
+       \* block the allocator keeps ready), so: if the frontier moved since the previous marker, at most one block is on the lists.
+       ELSE IF s.marks > 0 /\ hv.F > s.F /\ hv.nlinear + hv.ndeferred > 1 THEN
+            Fail(s, "footprint", "fresh memory was taken from the unused part of the heap although a free list was not empty (before " \o n.k \o ")")
        ELSE LET bad == {p \in 1..Len(m.env) : Shallow(c, s, p)[1] # ""}
                 badU == {p \in bad : Shallow(c, s, p)[1] = "undef"}
             IN IF bad # {} THEN
